@@ -179,7 +179,10 @@ func (s *stream) tryUnblock() bool {
 	}
 
 	if s.awaySeq != s.commitSeq.Load() {
-		logger.Panicf("why events are different? away event id=%d, commit event id=%d", s.awaySeq, s.commitSeq)
+		// the heartbeat works on a copy of the blocked list: meanwhile the stream has got
+		// an event and the processor is busy with it, so the stream isn't waiting anymore
+		s.mu.Unlock()
+		return false
 	}
 
 	timeoutEvent := newTimeoutEvent(s)
